@@ -202,6 +202,8 @@ for _p in ("C04", "C06", "C08"):
 REGISTRATION = ["Simulator._add_event", "Simulator._add_event[per-key]", "Simulator._add_event[keys-distinct]", "SequentialRunner._generate_sessions[event]"]
 PROPS["C13"]["tasks"].append("SequentialRunner._generate_sessions[event]")
 PROPS["C14"]["tasks"] += ["FundamentalPriceShock.setup", "OrderMistakeShock.setup"]
+for _p in ("C07", "C13", "C15", "C16", "C18"):
+    PROPS[_p]["tasks"].append("effects:no-shared-mutable-state")
 PROPS["C15"]["tasks"] += ["PriceLimitRule.setup"]
 PROPS["C16"]["tasks"] += ["TradingHaltRule.setup"]
 PROPS["C14"]["tasks"] += ["Simulator._trigger_event_before_step_for_market", "Simulator._trigger_event_before_order", "SequentialRunner._iterate_market_updates[step]"] + RUNNER_ELEMS + REGISTRATION
